@@ -134,7 +134,7 @@ class Unit:
     def run(self, override=None):
         """Returns dict(status, obligations, covers, ignored, sha, error)."""
         res = {'unit': self.name, 'status': 'ok', 'obligations': [], 'covers': {}, 'ignored': [], 'sha': None,
-               'error': None, 'paths': 0, 'lineno': None}
+               'error': None, 'paths': 0, 'lineno': None, 'unreached': []}
         try:
             fn, sha, seg = self.load(override)
         except (KeyError, SyntaxError, FileNotFoundError) as e:
@@ -162,10 +162,44 @@ class Unit:
             res['error'] = f'contract binding error {type(e).__name__}: {e} @ {traceback.format_exc().splitlines()[-3].strip()}'
         res['obligations'] = ex.obls
         res['covers'] = ex.covers
+        # statement coverage (vacuity guard): every statement of the function must lie on some feasible path
+        if res['status'] == 'ok':
+            want = set()
+            stack = list(strip_docstring(fn))
+            while stack:
+                x = stack.pop()
+                if isinstance(x, ast.stmt):
+                    if not (isinstance(x, ast.Expr) and isinstance(x.value, ast.Constant)):
+                        want.add(x.lineno)
+                for c in ast.iter_child_nodes(x):
+                    if isinstance(c, (ast.FunctionDef, ast.AsyncFunctionDef, ast.ClassDef, ast.Lambda)) and c is not x:
+                        if isinstance(c, ast.stmt):
+                            want.add(c.lineno)
+                        if c.name if hasattr(c, 'name') else None in self.inlined_defs:
+                            stack.append(c)
+                        continue
+                    stack.append(c)
+            missing = sorted(l for l in want - ex.reached if l not in self.unreachable_ok_lines(fn))
+            res['unreached'] = missing
         res['ignored'] = sorted(set(ex.ignored))
         return res
 
     expected_exits = ()     # exit kinds that must be reachable (vacuity guard), e.g. ('normal', 'raise')
+    inlined_defs = ()       # names of nested defs whose bodies are executed by inlining (counted in statement coverage)
+    unreachable_ok = ()     # source-text fragments of statements that are legitimately unreachable under the precondition
+
+    def unreachable_ok_lines(self, fn):
+        out = set()
+        if not self.unreachable_ok:
+            return out
+        for x in ast.walk(fn):
+            if isinstance(x, ast.stmt):
+                src = ast.unparse(x)
+                if any(src.startswith(frag) for frag in self.unreachable_ok):
+                    for y in ast.walk(x):
+                        if isinstance(y, ast.stmt):
+                            out.add(y.lineno)
+        return out
 
     def exit_covers(self, ex, outs):
         for k, s, p in outs:
@@ -175,3 +209,29 @@ class Unit:
 
 def seq_len(s):
     return z3.Length(s)
+
+
+class LemmaUnit(Unit):
+    """Obligations that do not come from a function body: lemmas about spec functions (proved by explicit
+    induction, base + step as QF queries) and top-level property lemmas over component contracts."""
+    file = '(lemma)'
+    qual = 'lemma'
+
+    def lemmas(self):
+        """yield (name, hyps, goal)"""
+        return []
+
+    def run(self, override=None):
+        res = {'unit': self.name, 'status': 'ok', 'obligations': [], 'covers': {}, 'ignored': [], 'sha': None,
+               'error': None, 'paths': 0, 'lineno': None}
+        self.ex = None
+        try:
+            for name, hyps, goal in self.lemmas():
+                ob = Obligation(f'{self.qual}: {name}', list(hyps), goal, [], 'assert')
+                ob.unit = self.name
+                res['obligations'].append(ob)
+                res['covers'].setdefault(f'{self.qual}: hyps of {name}', []).append(list(hyps))
+        except (KeyError, AttributeError, z3.Z3Exception, AssertionError, TypeError) as e:
+            res['status'] = 'undecided'
+            res['error'] = f'lemma construction error {type(e).__name__}: {e}'
+        return res
